@@ -41,10 +41,18 @@ Rejected(e) ==
      LET i == Infer(src, <<>>, FUEL) IN
      IF i.r = "ok" /\ DefOrderOK(src) THEN Bad(<<"C05", "rejected although fully annotated and well typed", e.stage>>) ELSE TRUE
 ProgEv(e) == IF e.accepted THEN Accepted(e) ELSE Rejected(e)
+\* C14: an abnormal ending (stack exhaustion, time limit) of the checker or evaluator is admissible only on a program that
+\* diverges by itself: the specification's own checker or evaluator runs out of fuel on it
+CrashEv(e) ==
+  LET i == Infer(e.src, <<>>, 400) IN
+  IF i.r = "fuel" THEN TRUE
+  ELSE IF i.r = "ok" /\ Run(e.src, 300).r = "fuel" THEN TRUE
+  ELSE Bad(<<"C14", "abnormal ending on a program that does not diverge", e.what, "spec", i.r>>)
 TInit == l = 1
 TNext == /\ l <= Len(Rec) /\ l' = l + 1
          /\ LET e == Rec[l] IN
             CASE e.ev = "prog" -> ProgEv(e)
+              [] e.ev = "crash" -> CrashEv(e)
               [] OTHER -> Bad(<<"tool", "unknown event">>)
 TSpec == TInit /\ [][TNext]_l
 TraceAccepted == IF TLCGet("stats").diameter - 1 = Len(Rec) THEN TRUE ELSE Print(<<"TRACE-STOPPED-AT", TLCGet("stats").diameter>>, FALSE)
